@@ -118,6 +118,81 @@ pub trait Dec: Send {
     fn reset(&mut self) -> Result<usize, String>;
     fn snap(&self) -> DecoderSnapshot;
     fn dup(&self) -> Box<dyn Dec>;
+    /// identity of this object's history when states must not be merged (stateless fallback)
+    fn hist_key(&self, _out: &mut Vec<u8>) {}
+}
+
+/// `false` once the hook fidelity check has found that `verif_clone` / `verif_restore` do not
+/// carry the complete decoder state (e.g. a field was added to the decoder). Decoders are then
+/// duplicated by replaying their history on a new decoder, and states are never merged.
+pub static HOOKS_COMPLETE: std::sync::atomic::AtomicBool = std::sync::atomic::AtomicBool::new(true);
+pub fn hooks_complete() -> bool {
+    HOOKS_COMPLETE.load(std::sync::atomic::Ordering::Relaxed)
+}
+
+#[derive(Clone, Copy, PartialEq, Eq)]
+enum HistOp {
+    Run(u8, u32),
+    Fin,
+    Reset,
+}
+/// Decoder that remembers everything done to it and duplicates itself by replay - needs no hook.
+struct ReplayDec {
+    inner: Box<dyn Dec>,
+    kind: BufKind,
+    hist: Vec<HistOp>,
+}
+impl Dec for ReplayDec {
+    fn push(&mut self, b: u8) -> Out {
+        match self.hist.last_mut() {
+            Some(HistOp::Run(x, n)) if *x == b => *n += 1,
+            _ => self.hist.push(HistOp::Run(b, 1)),
+        }
+        self.inner.push(b)
+    }
+    fn finalize(&mut self) -> Result<Option<DecodeErr>, String> {
+        self.hist.push(HistOp::Fin);
+        self.inner.finalize()
+    }
+    fn reset(&mut self) -> Result<usize, String> {
+        self.hist.push(HistOp::Reset);
+        self.inner.reset()
+    }
+    fn snap(&self) -> DecoderSnapshot {
+        self.inner.snap()
+    }
+    fn dup(&self) -> Box<dyn Dec> {
+        let mut d = with_buf(self.kind, NewDec).expect("capacity");
+        for op in &self.hist {
+            match *op {
+                HistOp::Run(b, n) => {
+                    for _ in 0..n {
+                        let _ = d.push(b);
+                    }
+                }
+                HistOp::Fin => {
+                    let _ = d.finalize();
+                }
+                HistOp::Reset => {
+                    let _ = d.reset();
+                }
+            }
+        }
+        Box::new(ReplayDec { inner: d, kind: self.kind, hist: self.hist.clone() })
+    }
+    fn hist_key(&self, out: &mut Vec<u8>) {
+        for op in &self.hist {
+            match *op {
+                HistOp::Run(b, n) => {
+                    out.push(1);
+                    out.push(b);
+                    out.extend_from_slice(&n.to_le_bytes());
+                }
+                HistOp::Fin => out.push(2),
+                HistOp::Reset => out.push(3),
+            }
+        }
+    }
 }
 impl<B: Buffer + Send + 'static> Dec for Decoder<B> {
     fn push(&mut self, b: u8) -> Out {
@@ -151,5 +226,10 @@ impl BufVisitor for NewDec {
     }
 }
 pub fn new_dec(kind: BufKind) -> Box<dyn Dec> {
-    with_buf(kind, NewDec).unwrap_or_else(|| crate::report::machinery(&format!("capacity {:?} not instantiated", kind)))
+    let d = with_buf(kind, NewDec).unwrap_or_else(|| crate::report::machinery(&format!("capacity {:?} not instantiated", kind)));
+    if hooks_complete() {
+        d
+    } else {
+        Box::new(ReplayDec { inner: d, kind, hist: vec![] })
+    }
 }
